@@ -48,7 +48,7 @@ class FldMonitor:
     def _before(self, args, kwargs):
         engine = args[1]
         try:
-            return {"shadow": copy.deepcopy(engine), "decimals": self.fl.settings.decimals}
+            return {"shadow": copy.deepcopy(engine), "decimals": self.fl.settings.decimals, "held_values": [np.array(v.value, dtype=float, copy=True) for v in engine.input_variables]}
         except Exception as ex:
             self.ctx.hit(f"inconclusive:engine cannot be deep-copied ({type(ex).__name__})")
             return None
@@ -164,13 +164,18 @@ class FldMonitor:
         active = args[4] if len(args) > 4 else kwargs.get("active_variables")
         shadow, d = st["shadow"], st["decimals"]
         n = len(shadow.input_variables)
+        held = None
         if active is not None and len(active) != n:
-            ctx.hit("out_of_domain:subset of active variables")
-            return
+            # values are generated for the active variables only; every other input variable stays at the value it holds
+            held = {}
+            for j, (iv, sv) in enumerate(zip(engine.input_variables, shadow.input_variables)):
+                if not any(iv is a for a in active):
+                    held[j] = float(np.asarray(st["held_values"][j], dtype=float).ravel()[-1])
+            ctx.hit("piece:subset of active variables")
         if n == 0 or values < 1:
             ctx.hit("out_of_domain:no input variables or no values")
             return
-        if not all(math.isfinite(v.minimum) and math.isfinite(v.maximum) for v in shadow.input_variables):
+        if not all(math.isfinite(v.minimum) and math.isfinite(v.maximum) for j, v in enumerate(shadow.input_variables) if not (held and j in held)):
             ctx.hit("out_of_domain:infinite input range")
             return
         each = scope == fl.FldExporter.ScopeOfValues.EachVariable
@@ -186,13 +191,16 @@ class FldMonitor:
         # own grid
         rows, idx = [], [0] * n
         axes = []
-        for v in shadow.input_variables:
+        for j, v in enumerate(shadow.input_variables):
+            if held and j in held:
+                axes.append([held[j]])
+                continue
             dx = (v.maximum - v.minimum) / max(1.0, k - 1)
             axes.append([v.minimum + i * dx for i in range(k)])
         while True:
             rows.append([axes[i][idx[i]] for i in range(n)])
             pos = n - 1
-            while pos >= 0 and idx[pos] == k - 1:
+            while pos >= 0 and idx[pos] == len(axes[pos]) - 1:
                 idx[pos] = 0
                 pos -= 1
             if pos < 0:
@@ -314,11 +322,27 @@ def run(ctx):
                 exporter = fl.FldExporter(separator=rnd.choice([" ", " ", ",", "\t", "; "]), headers=rnd.random() < 0.8, input_values=rnd.random() < 0.85, output_values=rnd.random() < 0.9)
                 if not (exporter.input_values or exporter.output_values):
                     exporter.output_values = True
-                with fl.settings.context(decimals=d):
+                # now and then values are generated for some of the input variables only (a slice of the input space): the others
+                # stay at the value they hold - twice in a row, with another value held the second time
+                active, again = None, 1
+                finite_in = [iv for iv in engine.input_variables if math.isfinite(float(iv.minimum)) and math.isfinite(float(iv.maximum))]
+                if nin >= 2 and len(finite_in) == nin and rnd.random() < 0.35:
+                    active = set(rnd.sample(engine.input_variables, rnd.randint(1, nin - 1)))
+                    again = 2
+                    ctx.hit("workload:values generated for a subset of the input variables")
+                for turn in range(again):
+                  if active is not None:
+                    for iv in engine.input_variables:
+                        if iv not in active:
+                            x = rnd.uniform(float(iv.minimum), float(iv.maximum))
+                            iv.value = rnd.choice([x, np.array([0.0, x])])
+                  with fl.settings.context(decimals=d):
                     scope = Scope.EachVariable if each else Scope.AllVariables
-                    way = rnd.choice(["string", "string", "file", "writer"])
+                    way = rnd.choice(["string", "string", "file", "writer"]) if active is None else "string"
                     try:
-                        if way == "string":
+                        if way == "string" and active is not None:
+                            text = exporter.to_string_from_scope(engine, v, scope, active)  # judged by the monitor
+                        elif way == "string":
                             text = exporter.to_string_from_scope(engine, v, scope)  # judged by the monitor
                         else:
                             # other entry points produce the text outside the hooked function: hand it to the same checker
@@ -344,6 +368,23 @@ def run(ctx):
                             ctx.hit("entry:raised outside the hooked function")
                 if i < 2 and rep == 0 and text:
                     ctx.sample("scope", {"inputs": nin, "values": v, "scope": "each" if each else "all", "decimals": d, "first_lines": text.split("\n")[:4]})
+        # an input variable and an output variable of one name (the measured and the commanded `level`): one column each
+        for i, rnd in ctx.cases("shared names", ctx.scale(12, 240)):
+            name = rnd.choice(["level", "power", "T"])
+            ivs = [fl.InputVariable(name, minimum=0.0, maximum=1.0, terms=[fl.Triangle("low", 0.0, 0.25, 0.5)]), fl.InputVariable("rate", minimum=-1.0, maximum=1.0, terms=[fl.Ramp("up", -1.0, 1.0), fl.Ramp("down", 1.0, -1.0)])]
+            ov = fl.OutputVariable(name, minimum=0.0, maximum=2.0, aggregation=fl.Maximum(), defuzzifier=fl.Centroid(10), terms=[fl.Triangle("more", 0.0, 1.5, 2.0), fl.Triangle("less", 0.0, 0.5, 2.0)])
+            rb = fl.RuleBlock("rb", conjunction=fl.Minimum(), disjunction=fl.Maximum(), implication=fl.Minimum(), activation=fl.General(), rules=[fl.Rule.create(f"if rate is up then {name} is more"), fl.Rule.create(f"if rate is down then {name} is less")])
+            try:
+                engine = fl.Engine("shared", input_variables=ivs, output_variables=[ov], rule_blocks=[rb])
+            except Exception as ex:
+                ctx.hit(f"inconclusive:shared-name engine does not build: {type(ex).__name__}")
+                continue
+            for iv_on, ov_on in ((True, True), (True, False), (False, True)):
+                try:
+                    fl.FldExporter(input_values=iv_on, output_values=ov_on, headers=rnd.random() < 0.8).to_string_from_scope(engine, rnd.choice([9, 16, 25]), Scope.AllVariables)  # judged by the monitor
+                except Exception:
+                    pass
+            ctx.hit("workload:input and output variable of one name")
         # all perfect powers for 2-4 inputs: row counts (cheap engines)
         cheap = {}
         combos = [(n, v) for n in (2, 3, 4) for v in powers]
@@ -436,6 +477,7 @@ def run(ctx):
                 ctx.sample("reader", {"reader": text, "skip_lines": skip})
         probe.report(ctx)
         reach.report(ctx)
+    ctx.require("workload:input and output variable of one name", "workload:values generated for a subset of the input variables", "piece:subset of active variables")
     ctx.require("ranges held as integers", "reader:rows with output columns", "reader:ragged rows", "reader:row starting with a non-finite value", "reader:skip_lines left to its default", "workload:table of more than 4096 rows", "event:engine edited after loading, before export")
     ctx.require("hook:FldExporter.to_string_from_scope", "hook:FldExporter.to_string_from_reader", "scope:AllVariables", "scope:EachVariable", "scope:reader", "compare:outputs of a row", "piece:perfect power", "piece:between powers", "inputs:1", "inputs:2", "inputs:3", "inputs:4", "entry:file", "entry:writer")
 
